@@ -164,6 +164,37 @@ pub fn isolated_child(prop: &str, dispatch: fn(&str, &Value) -> Vec<(String, Str
     }
 }
 
+/// A logger that accepts every record, formats it (as a real logger would) and throws it away. It is installed once;
+/// `trace_logging(true)` raises the global level to TRACE, so that every log statement of the library is executed and
+/// its arguments are evaluated - what is computed must not depend on whether somebody listens.
+struct DiscardLogger;
+
+impl log::Log for DiscardLogger {
+    fn enabled(&self, _: &log::Metadata) -> bool {
+        true
+    }
+    fn log(&self, record: &log::Record) {
+        struct Sink(u64);
+        impl std::fmt::Write for Sink {
+            fn write_str(&mut self, s: &str) -> std::fmt::Result {
+                self.0 = self.0.wrapping_add(s.len() as u64);
+                Ok(())
+            }
+        }
+        let mut s = Sink(0);
+        let _ = std::fmt::write(&mut s, *record.args());
+    }
+    fn flush(&self) {}
+}
+
+static DISCARD_LOGGER: DiscardLogger = DiscardLogger;
+
+/// process-wide: callers run their "with trace logging" sections after everything else, one at a time
+pub fn trace_logging(on: bool) {
+    let _ = log::set_logger(&DISCARD_LOGGER);
+    log::set_max_level(if on { log::LevelFilter::Trace } else { log::LevelFilter::Off });
+}
+
 pub fn hash64(data: &[u8]) -> u64 {
     // FNV-1a, deterministic across runs (no RandomState)
     let mut h: u64 = 0xcbf29ce484222325;
